@@ -339,6 +339,28 @@ CHECKS["C18"] = dict(
     technique="Lean 4 proof (equal parts and ceiling bound over ordered fields, rotation composition, centre equidistance, path induction, area-constraint case analysis) + bit-exact Float correspondence of arc vertices + exact-area / spacing / angle oracle on the real mesher output (Triangle assumed, checked per run)",
 )
 
+CHECKS["C16"] = dict(
+    category="proof",
+    text=("Translator tools/translate_edit.py reads from FemmProblem::deleteSelectedNodes how the lines / arcs attached to a doomed "
+          "point are marked (TOGGLE or SET) and that the erase / renumbering statements are there. Lean theorems over "
+          "Model/Edit.lean (deleteSelectedNodes / Segments / ArcSegments as list operations with index renumbering): for every "
+          "drawing and every selection, with the SET marking, deleting the selected points keeps every remaining line and arc "
+          "joining two DISTINCT EXISTING points (deleteNodeAt_wf, deleteSelectedNodes_wf by induction over the scan) and the "
+          "SAME two points as before (deleteNodeAt_keeps_ends: faithful renumbering); nothing of the deleted kind stays "
+          "selected; the TOGGLE marking is refuted by a witness (toggle_breaks_wf); the property theorem is stated for the "
+          "marking the current source uses. Tied to the code by running the model on the drawing and selection of every "
+          "delete-points operation of the sequences and comparing the surviving points / lines / arcs with what femmcli saved. "
+          "PARTIAL: the geometric clauses are decided per run - random sequences of add-point / line / arc / label, select + "
+          "delete (each kind, everything, a point with its own line), translate / rotate / scale moves, copies, mirror, "
+          "create-radius with coincident, near-miss, collinear and crossing placements through the real femmcli; after every "
+          "operation: snap rule of added points, points apart, lines / arcs join two distinct existing points, no duplicates, "
+          "no proper crossing of two lines (exact arithmetic), no point inside a line, no label on a point or line, deletions "
+          "never change what a survivor joins, nothing left selected after selection-consuming operations. Known finding: a "
+          "line drawn through an existing block label leaves the label on the line."),
+    design_ref="DESIGN.md section 3, C16",
+    technique="Lean 4 proof (list / index renumbering invariants by induction over the deletion scan, witness refuting the toggle variant, property stated for the variant translated from the C++) + translator + model-vs-femmcli correspondence on delete operations + exact-arithmetic drawing invariants after every operation of random edit sequences",
+)
+
 NOT_YET = "check not built yet in this round; planned per DESIGN.md section 3 (Lean model + correspondence)"
 
 
